@@ -45,6 +45,9 @@ INPUTS_SMALL = {
     # two similar models (they merge) whose same-named field points to different, non-mergeable nested models; two inputs with the
     # same model indexes and different contents
     "poly": [{"e1": {"id": 1, "kind": "a", "ts": 1, "payload": {"x": 1, "y": 2}}, "e2": {"id": 2, "kind": "b", "ts": 2, "payload": {"p": "s", "q": [1]}}}],
+    # two models that share 60 % of their keys: merged under percent_50, kept apart under exact / the default
+    "sim60": [{"p1": {"fa": 1, "fb": 2, "fc": 3, "fd": 4}, "p2": {"fa": 1, "fb": 2, "fc": 3, "fe": 5}, "n": 1}],
+    "sim60b": [{"q1": {"ga": 1, "gb": 2, "gc": 3, "gd": 4}, "q2": {"ga": 1, "gb": 2, "gc": 3, "ge": 5}, "m": "x"}],
     "poly2": [{"o1": {"no": 1, "state": "a", "at": 1, "payload": {"u": 1.5, "v": 2}}, "o2": {"no": 2, "state": "b", "at": 2, "payload": {"r": "s", "s": [1]}}}],
 }
 INPUTS = INPUTS_SMALL
@@ -62,6 +65,9 @@ BODIES = {
     "T8": ("intfloat2", "attrs", "flat", {}, "defreg"),
     "T9": ("dates", "pydantic", "flat", {}, "cli"),
     "T10": ("dates2", "dataclasses", "flat", {}, "cli"),
+    # CLI objects with different --merge policies (each Cli object must keep its own parsed arguments)
+    "T16": ("sim60", "pydantic", "flat", {"argv": ["--merge", "exact"]}, "cli"),
+    "T17": ("sim60b", "dataclasses", "flat", {"argv": ["--merge", "percent_50"]}, "cli"),
     "T12": ("poly", "pydantic", "flat", {}),
     "T13": ("poly2", "dataclasses", "flat", {}),
     # the CLI's YAML loader (a module-level parser object of a third-party package): for these two bodies the frames of that package
@@ -105,7 +111,7 @@ def _cli_body(name, workdir):
     def run():
         from json_to_models.cli import Cli
         cli = Cli()
-        cli.parse_args(["-m", "Root", path, "-f", fw, "--datetime"])
+        cli.parse_args(["-m", "Root", path, "-f", fw] + list(BODIES[name][3].get("argv", ["--datetime"])))
         return clidrv.split_header(cli.run())[1]
     return run
 
@@ -335,6 +341,8 @@ def run(tier, seed):
         plans.append({"threads": ["T5", "T6"], "gran": "line", "bound": 1, "whole": True})
         plans.append({"threads": ["T4", "T2"], "gran": "line", "bound": 1, "whole": False})
         plans.append({"threads": ["T14", "T15"], "gran": "call", "bound": 1, "whole": True, "marks": ["ruamel"]})
+        plans.append({"threads": ["T16", "T17"], "gran": "call", "bound": 1, "whole": True})
+        plans.append({"threads": ["T16", "T17"], "gran": "line", "bound": 1, "whole": True})
         # merges whose decision compares nested models deeply (ModelMeta.__eq__ / merge_field_sets) in both threads at once
         plans.append({"threads": ["T12", "T13"], "gran": "call", "bound": 1, "whole": True})
         plans.append({"threads": ["T12", "T12"], "gran": "call", "bound": 1, "whole": True})
